@@ -326,14 +326,67 @@ the unrepaired error differs, see the example below). Compared with the real fun
 theorem error_without_value_hides_input (f : String) (c : Cause) (v w : String) :
     withoutValue ⟨f, v, c⟩ = withoutValue ⟨f, w, c⟩ := rfl
 
-open ErrText in
+open ErrText Generated.ErrText in
+/-- `ParseQuery` cuts PostgreSQL's message at the FIRST ` at or near ` (`strings.Index`; with `strings.LastIndex` –
+seeded change C16-4 – a token that itself contains the phrase keeps its beginning in the error), keeps what stands
+before it, and builds the new error from that and the cursor position only; of the parser's error it reads nothing
+but `Message` and `Cursorpos` -/
+theorem fact_pg_sanitiser : pgCutSearch = "strings.Index" ∧ pgCutSeparator = " at or near " ∧ pgCutKeeps = "message[:i]" ∧
+    pgErrorFormat = "%s at position %d" ∧ pgErrorArgs = ["message", "parseErr.Cursorpos"] ∧
+    pgErrorFieldsUsed = ["Cursorpos", "Message"] := by decide
+
+open ErrText Generated.ErrText in
 /-- **A PostgreSQL syntax error says nothing about the token next to it.** Whatever follows ` at or near ` in the
-parser's message – the token, which can be a literal or the rest of an unterminated string – the text `ParseQuery`
-returns is the same. Compared with the real function on generated statements: op `C16.pgerr`. -/
+parser's message – the token, which can be a literal or the rest of an unterminated string, and may itself contain
+` at or near `, quotes and line breaks – the text `ParseQuery` returns is the same. `pgError` is the function the code
+computes NOW (search function, separator and format regenerated). Compared with the real function on generated
+statements and messages: ops `C16.pgerr`, `C16.pgsan`. -/
 theorem pg_error_hides_token (kind tok tok' : List Char) (pos : Nat) :
     pgError (kind ++ atOrNear ++ tok) pos = pgError (kind ++ atOrNear ++ tok') pos := by
+  unfold pgError atOrNear
+  rw [fact_pg_sanitiser.1, fact_pg_sanitiser.2.1, fact_pg_sanitiser.2.2.2.1, pgErrorWith_std, pgErrorWith_std]
+  unfold pgErrorStd
+  rw [cut_append, cut_append " at or near ".toList kind tok']
+
+open ErrText Generated.ErrText in
+/-- **The sanitised message is a function of (kind, position) only.** For EVERY message of PostgreSQL's shape
+`<kind> at or near <token>` – the token arbitrary: a string literal, the rest of an unterminated quoted or dollar-quoted
+string, text that contains ` at or near ` again, quotes, line breaks – and every cursor position, `ParseQuery`'s error
+is `<kind> at position <pos>`: no character of the token is in it. (`kind` is one of PostgreSQL's fixed texts – `syntax
+error`, `unterminated quoted string` … – none of which contains the phrase: hypothesis `hk`, discharged for them in
+`pg_kinds_clean`.) -/
+theorem pg_error_sanitised_is_token_free (kind tok : List Char) (pos : Nat)
+    (hk : occurs atOrNear (kind ++ atOrNear.dropLast) = false) :
+    pgError (kind ++ atOrNear ++ tok) pos = kind ++ " at position ".toList ++ (toString pos).toList := by
   unfold pgError
-  rw [cut_append, cut_append atOrNear kind tok']
+  unfold atOrNear at hk ⊢
+  rw [fact_pg_sanitiser.1, fact_pg_sanitiser.2.1, fact_pg_sanitiser.2.2.2.1, pgErrorWith_std]
+  rw [fact_pg_sanitiser.2.1] at hk
+  unfold pgErrorStd
+  rw [cut_clean " at or near ".toList kind tok (by decide) hk]
+
+/-- the message kinds of PostgreSQL's scanner and grammar that come with ` at or near "<token>"` -/
+def pgKinds : List String :=
+  ["syntax error", "unterminated quoted string", "unterminated dollar-quoted string", "unterminated quoted identifier",
+   "unterminated /* comment", "unterminated bit string literal", "unterminated hexadecimal string literal",
+   "zero-length delimited identifier", "trailing junk after numeric literal", "trailing junk after parameter",
+   "invalid Unicode escape", "invalid Unicode escape value", "invalid Unicode surrogate pair", "operator too long", "parameter number too large",
+   "invalid hexadecimal integer", "invalid octal integer", "invalid binary integer"]
+
+open ErrText in
+/-- none of these kinds hosts the start of an ` at or near ` -/
+theorem pg_kinds_clean : ∀ k ∈ pgKinds, occurs atOrNear (k.toList ++ atOrNear.dropLast) = false := by decide
+
+open ErrText in
+/-- **Seeded change C16-4 as a theorem about the model.** With the cut at the LAST ` at or near ` the beginning of a
+token that contains the phrase stays in the error text; with the first one it does not. -/
+theorem last_index_cut_keeps_token_counterexample :
+    pgErrorWith "strings.LastIndex" " at or near " "%s at position %d"
+        "syntax error at or near \"'SECRET was seen at or near the gate'\"".toList 29 =
+      "syntax error at or near \"'SECRET was seen at position 29".toList ∧
+    pgErrorWith "strings.Index" " at or near " "%s at position %d"
+        "syntax error at or near \"'SECRET was seen at or near the gate'\"".toList 29 =
+      "syntax error at position 29".toList := by decide
 
 open ErrText in
 /-- `strconv`'s own text does tell the inputs apart – the repair is not vacuous -/
@@ -342,6 +395,11 @@ open ErrText in
 example : withoutValue ⟨"ParseInt", "secret1", .syntax⟩ = "strconv.ParseInt: invalid syntax" := by decide
 open ErrText in
 example : pgError "syntax error at or near \"'secret'\"".toList 27 = "syntax error at position 27".toList := by decide
+open ErrText in
+/-- `pg_error_sanitised_is_token_free` on an unterminated string whose rest contains the phrase, a quote and a line break -/
+example : pgError ("unterminated quoted string".toList ++ atOrNear ++ "\"'Zq9 seen at or near \"the\" gate\nnext".toList) 31 =
+    "unterminated quoted string at position 31".toList :=
+  pg_error_sanitised_is_token_free _ _ 31 (pg_kinds_clean "unterminated quoted string" (by decide))
 
 /-! ## non-vacuity -/
 
